@@ -17,7 +17,7 @@ func init() {
 			"Node side: the node value stored by set() is the one whose accumulate() the parent is told (push, pull, merge, updateAccumulation); an emptied node leaves its parent under its own key and is deleted only when the left sibling inheriting its range has the same parent; merges only under one parent and within the fan-out; the 8-bit split position cannot wrap; split/merge bounds; unknown children fail loudly.",
 		NotCovered:  []string{"equivalence with a sorted map over operation sequences as such (necessary conditions only)", "iteration order", "all fan-out settings as values"},
 		Assumptions: []string{"KV store iterators return keys in byte order (parent()/leftSibling()/rightSibling() rely on it)"},
-		MinObl:      53,
+		MinObl:      56,
 		Run:         runC16,
 	})
 }
@@ -131,4 +131,8 @@ func runC16(c *rules.Ctx) {
 	c.Returns(ND+"split", 0, "sumtree.NewNode(slice(node.Children,_,idx))", "split: the left half is children[:idx]", "/l")
 	c.Returns(ND+"split", 1, "sumtree.NewNode(slice(node.Children,idx,_))", "split: the right half is children[idx:]", "/r")
 	c.Returns(ND+"merge", 0, "sumtree.NewNode(append(node.Children, node2.Children))", "merge: left children then right children", "")
+	// iteration bounds are passed through in order; the legacy migration keeps every child
+	c.Returns(T+"Iterator", 0, "sumtree.Tree.ptrIterator(t,0,begin,end)", "forward iteration from begin to end", "")
+	c.Returns(T+"ReverseIterator", 0, "sumtree.Tree.ptrReverseIterator(t,0,begin,end)", "reverse iteration over the same [begin,end) bounds", "")
+	c.LoopBodyStraight("osmoutils/sumtree/legacy/v101.migrateBranchValue", "the json→proto migration converts every child of a branch (also those with zero accumulation)")
 }
